@@ -509,10 +509,9 @@ def report_violation(pid, unit, r, job, idx):
         rec['replay'] = 'no native replay driver for this unit'
     elif rb[0] != 'ok':
         rec['replay'] = 'replay driver failed to build: ' + rb[1]
-    elif not w:
-        rec['replay'] = 'cbmc gave no witness values'
     else:
-        rc, out = run_replay(rb[1], job['name'], w)
+        # a unit without witness globals still has a driver that sweeps its own menu of real configurations
+        rc, out = run_replay(rb[1], job['name'], w or {})
         rec['replay'] = dict(exit=rc, output=out)
         if rc == 1:
             suffix = ''
